@@ -33,7 +33,7 @@ CHECKS = {
  "C17": dict(
    category="model_checking", design_ref="DESIGN.md §3 C17",
    technique="TLA+ token-level reference (EnumRule.tla), TLC graph dump, token paths printed to text and replayed on rules/enum and on schemas using the rule by name vs inline",
-   text="EnumRule.tla defines acceptance (bracketed list of distinct non-exponent scalars, annotations where the repository's tests place them), the value list and the duplicate relation over a 19-scalar catalogue (\"1\" vs 1, \"a\" vs \"\\u0061\", 1.0 vs 1, -0, 1e2, -1 vs \"-1\", false vs \"true\" ...) explored in two halves. TLC checks that an accepted prefix never holds duplicates and dumps the two graphs (13.6k + 12k states); the harness replays the access sequence of every state followed by every token sequence <= k and seeded random walks (Check, Values with kinds), and for every distinct accepted item list compares `v // {enum: @rule}` with `v // {enum: [list]}` (verdict, error code, example) and with membership for every catalogue value; one annotated rule object is also shared by many schemas and its Values()/GetAST() re-read afterwards.",
+   text="EnumRule.tla defines acceptance (bracketed list of distinct non-exponent scalars, annotations where the repository's tests place them), the value list and the duplicate relation over a 29-scalar catalogue (\"1\" vs 1, \"a\" vs \"\\u0061\", 1.0 vs 1, -0, 1e2, -1 vs \"-1\", false vs \"true\" ...) explored in three parts. TLC checks that an accepted prefix never holds duplicates and dumps the three graphs; the harness replays the access sequence of every state followed by every token sequence <= k and seeded random walks (Check, Values with kinds), and for every distinct accepted item list compares `v // {enum: @rule}` with `v // {enum: [list]}` (verdict, error code, example) and with membership for every catalogue value; one annotated rule object is also shared by many schemas and its Values()/GetAST() re-read afterwards.",
    note="Annotation placements outside those shown by the repository's tests, the empty list and merged number tokens have no verdict (counted inconclusive). Comment-only entries of Values() are ignored."),
  "C10": dict(
    category="model_checking", design_ref="DESIGN.md §3 C10",
@@ -72,7 +72,7 @@ CHECKS = {
    note="The printer (model.Layout.Print) is trusted. Projects the library rejects (e.g. values above the integer range after the fix) have no AST and are counted inconclusive. A type name as rule value may be reported as string or reference."),
  "C14": dict(
    category="model_checking", design_ref="DESIGN.md §3 C14",
-   technique="TLA+ layout space (Layout.tla, 2160 layouts reached by toggle actions) x SchemaText.tla projects; metamorphic comparison of all observables within each orbit, plus context-free transformations of the repository corpus",
+   technique="TLA+ layout space (Layout.tla, 2700 layouts reached by toggle actions) x SchemaText.tla projects; metamorphic comparison of all observables within each orbit, plus context-free transformations of the repository corpus",
    text="Layout.tla enumerates the presentation vectors (line ends x annotation style x five ways of quoting rule names - none, all, top level only, nested only, alternating - x padding x # and ### user comments x leading/trailing blank lines); every SchemaText project is printed under the plain layout and a seeded sample (24 quick / 160 thorough) of the others: verdict and error code, AST (notes modulo blank runs), example, used types and OpenAPI JSON must be identical. Every schema-like literal of the repository's tests is compared with its CRLF, CR, leading-blank, trailing-blank and trailing-space variants.",
    note="The printer only produces layouts that keep each annotated element alone on its line and comments on their own line or after an unannotated value. Texts that stop in the middle of an element (code 303) are excluded from the trailing transformations."),
  "C15": dict(
